@@ -72,6 +72,16 @@ def random_app_limited(ctx):
             "den": den, "size": 0, "gaps": gaps, "chunks": chunks, "ev": ev, "src": "random-app"}
 
 
+def long_ca(ctx):
+    """Hundreds of ACKs in Reno congestion avoidance with an unbounded source: cwnd creeps through every residue modulo
+    MSS (a guard that is off by a fraction of a byte shows only at particular window values)."""
+    rng = ctx.rng
+    n = rng.choice([700, 900]) if ctx.quick else rng.choice([900, 1300])
+    ev = [{"op": "A", "dt": 1, "k": 1, "rtt": -1, "late": 0} for _ in range(n)]
+    return {"cc": "reno", "cwnd": rng.randint(1100, 4000), "ssthresh": 1024, "rtt0": 8, "den": 8, "size": 0,
+            "ev": ev, "cap": 3 * n + 50, "src": "long-ca"}
+
+
 def random_history(ctx):
     rng = ctx.rng
     cubic = rng.random() < 0.3
@@ -280,6 +290,7 @@ def run(ctx, replay=None):
         scs = [from_history(ctx, h) for h in emitted[:n_emit]]
         scs += [random_history(ctx) for _ in range(n_rand)]
         scs += [random_app_limited(ctx) for _ in range(n_rand // 2)]
+        scs += [long_ca(ctx) for _ in range(30 if ctx.quick else 120)]
     traces = ctx.drive("tcpsender", scs, procs=12)
     stuck = ctx.validate("TcpSenderTrace", "TcpSenderTrace.cfg", "tcp", traces, shard=max(60, len(traces) // 16 + 1))
     distinct = set()
